@@ -167,3 +167,15 @@ Proof.
   intros dm ds Hdm Hds Hm. unfold example_doc in Hdm. cbn [d_messages] in Hdm.
   repeat (destruct Hdm as [<-|Hdm]; [cbn [dm_signals] in Hds; repeat (destruct Hds as [<-|Hds]; [cbn in Hm; discriminate Hm|]); destruct Hds|]). destruct Hdm.
 Qed.
+
+(* the hypothesis is needed: the model accepts a switch of size -1 (one group) and gives it the selector width 1 *)
+Local Open Scope string_scope.
+Definition neg_switch_doc : doc :=
+  mkdoc "n.dbc" ["ECU"] []
+    [ mkdmessage 256 "M" 2 "ECU"
+        [ mkdsignal "sw" true false 0 (-1) 0 LittleEndian false fl_one fl_zero fl_zero fl_one "" ["Vector__XXX"] ] ]
+    [] [] [] [] [] [].
+Example negative_switch_size_accepted :
+  exists b, import neg_switch_doc = Ok b /\
+    map (fun m => map (fun s => (s_name s, s_kind s, sel_width s)) (m_signals m)) (b_messages b) = [[("sw", KMux, 1)]].
+Proof. eexists. split; [vm_compute; reflexivity|]. vm_compute. reflexivity. Qed.
